@@ -253,6 +253,9 @@ pub(crate) fn stop_then_term(emulated: bool, stop_sig: c_int, term_sig: c_int) -
             libc::usleep(1000);
         }
         if !libc::WIFSTOPPED(status) {
+            if libc::WIFEXITED(status) && libc::WEXITSTATUS(status) == 43 {
+                return Outcome::Other("after an emulated stop the library's handler is no longer the disposition of the stop signal".into());
+            }
             return Outcome::Other(format!("ended instead of stopping a second time (status {:#x})", status));
         }
         libc::kill(pid, term_sig);
